@@ -1,6 +1,7 @@
 package fam
 
 import (
+	"bytes"
 	"encoding/json"
 	"fmt"
 	"math/rand"
@@ -70,6 +71,11 @@ func (Forgery) Cap(tier string) int {
 }
 func (Forgery) Layouts(tier string) int { return 1 }
 
+// Keep: documents with a genuine root signature are few and carry the signed-Response path; always replayed.
+func (Forgery) Keep(c *orch.Case) bool {
+	return bytes.Contains(c.Input, []byte(`"rsig":"gen"`))
+}
+
 var ridMap = map[string]string{"r1": "_resp-r1", "rX": "_resp-x9", "a1": "_assert-a1"}
 
 func genuineRoot() *idp.Response {
@@ -85,7 +91,15 @@ func layoutFor(rng *rand.Rand, excOnly bool) idp.Layout {
 // ownSigned builds content c carrying the IdP's own enveloped signature, made in a
 // genuine Response context (or standalone), and returns the detached element.
 func ownSigned(b *idp.Builder, w *world.World, spec *idp.Assertion, standalone bool) *etree.Element {
+	return ownSignedWith(b, w, spec, standalone, nil)
+}
+
+// ownSignedWith lets the caller extend the element before the IdP signs it.
+func ownSignedWith(b *idp.Builder, w *world.World, spec *idp.Assertion, standalone bool, extend func(*etree.Element)) *etree.Element {
 	el := b.AssertionEl(spec, standalone)
+	if extend != nil {
+		extend(el)
+	}
 	b.Decorate(el)
 	if !standalone {
 		ctx := b.ResponseEl(genuineRoot())
@@ -122,15 +136,25 @@ func BuildForgery(in *fInput, seed int64, claim bool) (doc []byte, lay idp.Layou
 	var late []pending // attacker signatures are made once the element sits in its final place
 
 	for _, k := range in.Kids {
-		spec := world.Content(k.C)
+		cname := k.C
+		if cname == "GA1adv" {
+			cname = "GA1"
+		}
+		spec := world.Content(cname)
 		if k.ID == "a1" {
 			spec.ID = "_assert-a1"
 		}
 		standalone := k.Enc
+		// GA1adv: the IdP put a second, individually signed assertion into the Advice before signing
+		withAdvice := func(el *etree.Element) {
+			if k.C == "GA1adv" {
+				b.AdviceInto(el, ownSigned(b, w, world.Content("GA2"), true))
+			}
+		}
 		var el *etree.Element
 		switch k.Sig {
 		case "own":
-			el = ownSigned(b, w, spec, standalone)
+			el = ownSignedWith(b, w, spec, standalone, withAdvice)
 		case "copied":
 			other := "GA1"
 			if k.C == "GA1" {
@@ -145,10 +169,12 @@ func BuildForgery(in *fInput, seed int64, claim bool) (doc []byte, lay idp.Layou
 			}
 			src.RemoveChild(sig)
 			el = b.AssertionEl(spec, standalone)
+			withAdvice(el)
 			b.Decorate(el)
 			idp.InsertSignature(el, sig, -1)
 		default:
 			el = b.AssertionEl(spec, standalone)
+			withAdvice(el)
 			b.Decorate(el)
 		}
 		attSig := func(target *etree.Element) idp.SigOpts {
